@@ -419,7 +419,7 @@ func TestCheck(t *testing.T) {
 
 	routes := buildRoutes()
 	ck := &checker{rep: rep}
-	n := int64(cfg.Pick(3750, 300000))
+	n := int64(cfg.Pick(15000, 300000))
 	rep.Cases(n, func(idx int64, r *mon.Rand) {
 		p := r.Intn(100)
 		var kind, digest string
